@@ -20,7 +20,7 @@ package PVM
 //@   spec pvm.smt2
 //@   key op uint8 20,51,100,102..111,131..161,190..230
 //@   requires nonnil: interp != nil && instr != nil
-//@   requires fields: instr.Opcode == op && (spec.pvm_needs_dst(op) ==> instr.Dst < 13) && (spec.pvm_needs_src0(op) ==> instr.Src[0] < 13) && (spec.pvm_needs_src1(op) ==> instr.Src[1] < 13)
+//@   requires fields: regs_ok(op, instr)
 //@   ensures exit: result0 == ExitContinue && result1 == instr.PC
 //@   ensures regs: forall(i, 0, 13, interp.Registers[i] == ite(i == int(instr.Dst), spec.pvm_alu(op, old(interp.Registers[instr.Dst]), old(interp.Registers[instr.Src[0]]), old(interp.Registers[instr.Src[1]]), instr.Imm[0]), old(interp.Registers[i])))
 //@   ensures frame: frame_only(interp.Registers)
@@ -29,7 +29,7 @@ package PVM
 //@ pred blockstart(p, t) = uint64(t) < uint64(len(p.Bitmasks)) && p.Bitmasks[int(t)] == 3
 //@ pred wf_code(p) = len(p.Bitmasks) == len(p.InstructionData) && len(p.Bitmasks) < 4294967296
 //@ pred wf_jt(p) = p.JumpTable.Length <= 8 && uint64(len(p.JumpTable.Data)) >= uint64(p.JumpTable.Size) * uint64(p.JumpTable.Length)
-//@ pred regs_ok(op, instr) = instr.Opcode == op && (spec.pvm_needs_dst(op) ==> instr.Dst < 13) && (spec.pvm_needs_src0(op) ==> instr.Src[0] < 13) && (spec.pvm_needs_src1(op) ==> instr.Src[1] < 13)
+//@ pred regs_ok(op, instr) = instr.Opcode == op && (spec.pvm_needs_dst(op) ==> instr.Dst < 13) && (spec.pvm_needs_src0(op) ==> instr.Src[0] < 13) && (spec.pvm_needs_src1(op) ==> instr.Src[1] < 13) && (spec.pvm_dst_is_src0(op) ==> instr.Dst == instr.Src[0])
 
 //@ table instrMetaExecForOpcode noarg
 //@   props C01 C02 C03
@@ -55,7 +55,7 @@ package PVM
 //@   spec pvm.smt2
 //@   key op uint8 10
 //@   requires nonnil: interp != nil && instr != nil
-//@   ensures kind: result0.GetReasonType() == HOST_CALL
+//@   ensures kind: uint64(result0) >> 56 == 5
 //@   ensures id: uint64(result0) & 0x00ffffffffffffff == instr.Imm[0] && result1 == instr.PC
 //@   ensures frame: frame_only()
 
@@ -83,3 +83,42 @@ package PVM
 //@   ensures badtarget: !blockstart(interp.Program, target) ==> result0 == ExitPanic && result1 == instr.PC
 //@   ensures regs: forall(i, 0, 13, interp.Registers[i] == ite(op == 80 && i == int(instr.Dst), instr.Imm[0], old(interp.Registers[i])))
 //@   ensures frame: frame_only(interp.Registers)
+
+// ---- guest memory (C05) ----
+// Memory is viewed page-wise: an n-octet access (n <= 8) at address a touches page a/ZP and, when it crosses the
+// page boundary, the following page (mod 2^20 pages, i.e. addresses mod 2^32).
+//@ pred page_wf(m, pg) = has(m.Pages, pg) ==> pg >= 16 && pg < 1048576 && m.Pages[pg] != nil && len(m.Pages[pg].Value) == 4096
+//@ pred wf_mem(m) = m != nil && all(pg, uint32, page_wf(m, pg))
+//@ pred nextpg(a) = (a/4096 + 1) % 1048576
+//@ pred crosses(a, n) = a%4096 + n > 4096
+//@ pred readable_pg(m, pg) = has(m.Pages, pg) && m.Pages[pg].Access != MemoryInaccessible
+//@ pred writable_pg(m, pg) = has(m.Pages, pg) && m.Pages[pg].Access == MemoryReadWrite
+//@ pred readable(m, a, n) = readable_pg(m, a/4096) && (crosses(a, n) ==> readable_pg(m, nextpg(a)))
+//@ pred writable(m, a, n) = writable_pg(m, a/4096) && (crosses(a, n) ==> writable_pg(m, nextpg(a)))
+//@ pred mbyte_loc(m, a, k) = m.Pages[ite(a%4096 + k < 4096, a/4096, nextpg(a))].Value[int((a%4096 + k) % 4096)]
+//@ pred mbyte(m, a, k) = uint64(mbyte_loc(m, a, k))
+//@ pred mload(m, a, n) = mbyte(m, a, 0) | ite(n > 1, mbyte(m, a, 1) << 8, 0) | ite(n > 2, mbyte(m, a, 2) << 16 | mbyte(m, a, 3) << 24, 0) | ite(n > 4, mbyte(m, a, 4) << 32 | mbyte(m, a, 5) << 40 | mbyte(m, a, 6) << 48 | mbyte(m, a, 7) << 56, 0)
+//@ pred is_fault(r, a, n) = uint64(r) >> 56 == 4 && uint64(r) & 0x00ffffff00000000 == 0 && uint64(uint32(r)) >= uint64(a/4096*4096) && uint64(uint32(r)) <= uint64(a) + uint64(n) - 1
+//@ pred pages_apart(m, p, q) = p != q && has(m.Pages, p) && has(m.Pages, q) ==> m.Pages[p] != m.Pages[q] && disjoint(m.Pages[p].Value, m.Pages[q].Value)
+//@ pred access_wf(m, a) = m != nil && page_wf(m, a/4096) && page_wf(m, a/4096+1) && page_wf(m, nextpg(a)) && pages_apart(m, a/4096, a/4096+1)
+
+//@ func loadFromMemory
+//@   props C05 C01 C03
+//@   requires wf: interp != nil && access_wf(interp.Memory, vx) && (offset == 1 || offset == 2 || offset == 4 || offset == 8)
+//@   ensures low: vx < 65536 ==> result1 == ExitPanic && result0 == 0
+//@   ensures [cases int(offset) 1..8] ok: vx >= 65536 && readable(interp.Memory, vx, offset) ==> result1 == ExitContinue && result0 == mload(interp.Memory, vx, offset)
+//@   ensures fault: vx >= 65536 && !readable(interp.Memory, vx, offset) ==> is_fault(result1, vx, offset)
+//@   ensures frame: frame_only()
+
+//@ func storeIntoMemory
+//@   props C05 C01 C03
+//@   requires wf: interp != nil && access_wf(interp.Memory, memIndex) && (offset == 1 || offset == 2 || offset == 4 || offset == 8)
+//@   ensures low: memIndex < 65536 ==> result == ExitPanic && frame_only()
+//@   ensures fault: memIndex >= 65536 && !writable(interp.Memory, memIndex, uint32(offset)) ==> is_fault(result, memIndex, uint32(offset)) && frame_only()
+//@   ensures [cases offset*8 + ite(crosses(memIndex, uint32(offset)), int(4096 - memIndex%4096), 0) 8..71] ok: memIndex >= 65536 && writable(interp.Memory, memIndex, uint32(offset)) ==> result == ExitContinue && forall(k, 0, 8, k < offset ==> mbyte(interp.Memory, memIndex, uint32(k)) == (immediate >> (8*uint64(k))) & 0xff)
+//@   let p0v = interp.Memory.Pages[memIndex/4096].Value
+//@   let p1v = interp.Memory.Pages[ite(crosses(memIndex, uint32(offset)), nextpg(memIndex), memIndex/4096)].Value
+//@   ensures okframe: memIndex >= 65536 && writable(interp.Memory, memIndex, uint32(offset)) ==> frame_only(elems(p0v), elems(p1v))
+//@   ensures okbytes0: memIndex >= 65536 && writable(interp.Memory, memIndex, uint32(offset)) ==> forall(j, 0, 4096, (j < int(memIndex%4096) || j >= int(memIndex%4096) + offset) ==> p0v[j] == old(p0v[j]))
+//@   ensures okbytes1: memIndex >= 65536 && writable(interp.Memory, memIndex, uint32(offset)) && crosses(memIndex, uint32(offset)) ==> forall(j, 0, 4096, j >= int(memIndex%4096) + offset - 4096 ==> p1v[j] == old(p1v[j]))
+//@   opt slow=3
